@@ -268,6 +268,10 @@ def quantize_real(x,
     q_voltages : array
         Array of quantized voltages
     """
+    # Scale in double precision: integer samples would wrap in `x - data_mean`, single precision 
+    # loses the rounding boundaries on an offset
+    x = xp.asarray(x, dtype=float)
+    
     if data_std is None:
         data_mean, data_std = data_stream.estimate_stats(x, stats_calc_num_samples)
     
